@@ -364,7 +364,20 @@ def judge(cfg, interrupts, kills, out):
     if out["viol"]:
         return [(s, m + "; " + ctx) for s, m in bad]
     if out["interrupts_missed"]:
-        raise RuntimeError("harness: interruption labels never asked: %r (%s)" % (out["interrupts_missed"], ctx))
+        # a planned "end the slice after bucket X of cycle c" point that was never reached: either the crawler
+        # never processed X in that cycle (a skipped bucket - the subject of this property), or the harness is wrong
+        unexplained = []
+        for lab in out["interrupts_missed"]:
+            if lab[0] == "b" and not any(c == lab[1] and name == lab[3] for (_, c, _, name) in out["log"]):
+                bad.append(("bucket-skipped", "bucket %s was never passed to process_bucket in cycle %d (the slice end planned after it was never reached); calls=%r; %s" % (lab[3], lab[1], out["log"], ctx)))
+            else:
+                unexplained.append(lab)
+        if bad:
+            return bad
+        if any(lab[0] != "p" for lab in unexplained):
+            raise RuntimeError("harness: interruption labels never asked: %r (%s)" % (unexplained, ctx))
+        # an "end the slice after prefix #n" point that was never reached: judged below by what happened to the
+        # buckets; if nothing is wrong with them either, the harness is
     for k in kills:
         if k >= len(out["events"]):
             raise RuntimeError("harness: kill event %d never reached (%s)" % (k, ctx))
@@ -398,6 +411,10 @@ def judge(cfg, interrupts, kills, out):
         prev = v
     if prev != 1:
         bad.append(("cycles-not-finished", "final last-cycle-finished=%r, expected 1; %s" % (prev, ctx)))
+    if out["interrupts_missed"] and not bad:
+        # only "after prefix #n" points are left here and every bucket was handled exactly as demanded: the
+        # crawler never reported that prefix boundary where a slice could end; nothing the statement speaks of
+        out["prefix_boundaries_never_offered"] = len(out["interrupts_missed"])
     # de-duplicate by sig (keep first message)
     seen, uniq = set(), []
     for s, m in bad:
